@@ -82,9 +82,21 @@ def rule_b(ck, R):
         ms = p.calls('memset')
         if rd and ms:
             bad = 'both arms executed in one iteration'
+        RD = R.E.get('REG_AF_READABLE')
+        def has(pred):
+            return any(pred(c) for c in p.cond_terms())
+        cb_nonnull = has(lambda c: c[0] == 'cmp' and c[1] == '!=' and c[3] == C(0) and strip_cast(c[2])[0] == 'f' and strip_cast(c[2])[2] == 'read')
+        cb_null = has(lambda c: c[0] == 'cmp' and c[1] == '==' and c[3] == C(0) and strip_cast(c[2])[0] == 'f' and strip_cast(c[2])[2] == 'read')
+        flag_set = has(lambda c: c[0] == 'cmp' and c[1] == '==' and sym.is_c(c[3]) and c[3][1] != 0 and strip_cast(c[2])[0] == '&b' and 'flags' in fmt(c[2]) and c[2][2] == C(RD))
+        flag_clr = has(lambda c: c[0] == 'cmp' and ((c[1] == '!=' and sym.is_c(c[3]) and c[3][1] != 0) or (c[1] == '==' and c[3] == C(0))) and strip_cast(c[2])[0] == '&b' and 'flags' in fmt(c[2]) and c[2][2] == C(RD))
         if rd:
             arms.add('read')
-            # readable arm taken only for readable areas
+            # the area's read callback is used exactly for readable areas: callback present AND the READABLE flag set
+            if not (cb_nonnull and flag_set):
+                bad = bad or ('the area read callback is invoked on a path where %s: a write-only area is read through its callback, or a NULL callback is called'
+                              % ('the READABLE flag is not known to be set' if cb_nonnull else 'the callback is not known to be non-NULL'))
+        if ms and not (cb_null or flag_clr):
+            bad = bad or 'words are zero-filled on a path where the area is not known to be unreadable'
         if ms:
             arms.add('zero')
             m = ms[0]
